@@ -246,6 +246,8 @@ class HistoryRunner:
                 m.stampflags.add(op[1])
             else:
                 m.stampflags.discard(op[1])
+        elif k == "crash":
+            self.do_crash(op[1], op[2], op[3], op[4], op[5])
         elif k == "query":
             self.do_query(op[1], op[2])
         elif k == "mwrite":
@@ -256,7 +258,7 @@ class HistoryRunner:
             self.manual(op[1], "remove")
         else:
             raise ValueError(op)
-        if k not in ("cmd", "query"):
+        if k not in ("cmd", "query", "crash"):
             for pth in list(op[1:2]):
                 if isinstance(pth, str):
                     if pth in m.fs and m.fs[pth].owner == "user":
@@ -288,6 +290,51 @@ class HistoryRunner:
         self.pending_changes.add("m" + how + ("-gen" if was_redo else ("-user" if existed else "-new")))
 
     # -- commands --
+    def shim_env(self, n, victim):
+        """Environment that makes the LD_PRELOAD shim (engine K) kill `victim` immediately before the n-th
+        state-changing libc call issued by redo processes inside the project."""
+        from . import sut
+        disk = self.disk
+        ctr = os.path.join(disk.ctl, "ctr")
+        with open(ctr, "wb") as f:
+            f.write(b"\0" * 4096)
+        try:
+            os.unlink(os.path.join(disk.ctl, "shimlog"))
+        except FileNotFoundError:
+            pass
+        here = os.path.dirname(os.path.dirname(os.path.abspath(__file__)))
+        return {"LD_PRELOAD": os.path.join(here, "shim", "verifshim.so"),
+                "RV_SHIM_EXE": os.path.realpath(os.path.join(sut.BIN_DIR, "redo")), "RV_SHIM_CTR": ctr,
+                "RV_SHIM_LOG": os.path.join(disk.ctl, "shimlog"), "RV_SHIM_ROOT": disk.root, "RV_SHIM_WRITES": "1",
+                "RV_SHIM_KILL_AT": str(n), "RV_SHIM_VICTIM": victim}
+
+    def do_crash(self, kind, targets, cwd, n, victim):
+        """A build command during which a redo process (or the whole tree) is killed before its n-th state-changing
+        call; then -- without any cleanup -- `redo-ifchange` of every target of the project (the recovery run), judged
+        like any other command except that WHICH scripts it runs is not compared (that depends on how far the
+        killed run got).  If n exceeds what the command issues, it is an ordinary command."""
+        import copy
+        snapshot = copy.deepcopy(self.m)
+        pend = set(self.pending_changes)
+        self._crash_env = self.shim_env(n, victim)
+        self._crash_killed = False
+        try:
+            self.do_cmd(kind, targets, cwd)
+        finally:
+            self._crash_env = None
+        if not self._crash_killed:
+            self.out.events["crash:point-beyond-end(ordinary command)"] += 1
+            return
+        # the model has not seen the killed command
+        self.m = snapshot
+        self.pending_changes = pend | {"crash"}
+        self.out.events["crash:killed-%s" % victim] += 1
+        self._recovering = True
+        try:
+            self.do_cmd("ifchange", list(self.m.targets), "")
+        finally:
+            self._recovering = False
+
     def do_cmd(self, kind, targets, cwd):
         m, disk = self.m, self.disk
         if not os.path.isdir(os.path.join(disk.root, ".redo")):
@@ -308,8 +355,29 @@ class HistoryRunner:
         nested = has_nested_csum(m)
         self.pre_csum = {t: r.csum for t, r in m.rec.items()}
         ok_model = m.cmd_redo(targets) if kind == "redo" else m.cmd_ifchange(targets)
-        res = runner.run_cmd(disk, argv, cwd=cwd, env_extra=self.env)
+        cenv = getattr(self, "_crash_env", None)
+        res = runner.run_cmd(disk, argv, cwd=cwd, env_extra=dict(self.env, **cenv) if cenv else self.env)
         self.out.commands += 1
+        if cenv:
+            # did the kill happen? (the shim logs every numbered call; the victim dies before call n)
+            try:
+                with open(cenv["RV_SHIM_LOG"]) as f:
+                    nums = [int(l.split(" ", 1)[0]) for l in f.read().split("\n") if l]
+            except (OSError, ValueError):
+                nums = []
+            if nums and max(nums) >= int(cenv["RV_SHIM_KILL_AT"]):
+                self._crash_killed = True
+                # orphans of a killed redo (scripts, nested redo) may still be running: let them finish, then
+                # make sure nothing is left
+                import time
+                t_end = time.time() + 8
+                while time.time() < t_end and runner.session_pids(res.pid):
+                    time.sleep(0.02)
+                runner.kill_session(res.pid)
+                disk.take_trace()
+                self.out.log.append({"killed": argv, "cwd": cwd, "n": cenv["RV_SHIM_KILL_AT"],
+                                     "victim": cenv["RV_SHIM_VICTIM"], "rc": res.rc})
+                return
         lines = disk.take_trace()
         ex, calls, args, exits = parse_trace(lines)
         self.out.scripts += len(ex)
@@ -323,6 +391,14 @@ class HistoryRunner:
             raise runner.Inconclusive("command timed out without no-progress proof: %r" % argv)
         text = res.text()
         ctx = {"cmd": res.brief(), "step": step, "nested_csum": nested}
+        if getattr(self, "_recovering", False):
+            ctx["recovery_after_kill"] = True
+            if "you modified it" in text and not m.warned:
+                # known finding D9 (C10): killed between renaming the new target into place and recording it ->
+                # redo takes its own output for a hand-made file. Not this check's subject; the case ends here.
+                self.out.diverged = "d9-window"
+                self.out.events["crash:excluded(D9 window: rename not recorded)"] += 1
+                return
         # --- universally applicable sanity: a panic is never acceptable (C09) ---
         if res.rc == 101 or "panicked at" in text:
             self.violate("C09", "panic", ctx, {"symptom": panic_sig(text)})
@@ -343,8 +419,25 @@ class HistoryRunner:
     def check_cmd(self, kind, targets, cwd, res, ok, ex, calls, args, exits, pre, nested, ctx):
         m, disk = self.m, self.disk
         ch = self.checks
+        if getattr(self, "_recovering", False):
+            # which scripts the recovery runs depends on how far the killed run got; D9's silent variant (a first
+            # build's output taken for a source) is recognised by its database row
+            ch = set(ch) - {"execset", "calls", "once", "csum", "ood-after-fail"}
+            files, _ = db_rows(disk)
+            gen = {r[1]: bool(r[2]) for r in files}
+            frozen = [t for t in m.targets if m.fs.get(t) is not None and m.fs[t].owner == "redo"
+                      and gen.get(t) is False]
+            if frozen:
+                self.out.diverged = "d9-window"
+                self.out.events["crash:excluded(D9 window: output recorded as a source)"] += 1
+                return
+            ex = list(m.executed)          # nothing below may compare execution sets
+            cex_override = True
+        cex_override = getattr(self, "_recovering", False)
         ev = self.out.events
         cex, mex = collections.Counter(ex), collections.Counter(m.executed)
+        if cex_override:
+            cex = mex
         if "csum" in ch:
             # C03's own clauses first, so that a change that is not forwarded is reported as that (and not only as
             # the stale content it causes)
